@@ -877,6 +877,10 @@ func (st *AclState) applyAccountRemove(ch *aclrecordproto.AclAccountRemove, reco
 }
 
 func (st *AclState) applyReadKeyChange(ch *aclrecordproto.AclReadKeyChange, record *AclRecord, validate bool) error {
+	if ch == nil {
+		// an account remove without its read key change
+		return ErrIncorrectReadKey
+	}
 	if validate {
 		err := st.contentValidator.ValidateReadKeyChange(ch, record.Identity)
 		if err != nil {
